@@ -163,6 +163,9 @@ struct QueueEngine : Engine
 		ctx.sim_ns = sub.sim_ns;
 		ctx.handlers = sub.handlers;
 		ctx.hit("real_traffic_runs");
+		// the one verdict of the traffic program that is ours: end-to-end delay below the sums along the route
+		if (c09 && sub.violated && sub.vclass.rfind("queue.", 0) == 0) { ctx.fail(sub.vclass, sub.detail + " [real traffic]"); return; }
+		if (sub.cnt.count("udp_one_way_delay_checked")) ctx.hit("udp_one_way_delay_checked", sub.cnt.at("udp_one_way_delay_checked"));
 		bool const quiescent = !sub.cnt.count("step_cap_reached") && !sub.cnt.count("livelock_watchdog");
 		for (auto const& q : queues)
 		{
